@@ -3,7 +3,7 @@
    decides the shape of the typed tree: which names are units and which are functions in the
    session (`lift`).  *)
 From Coq Require Import List NArith ZArith Bool Arith Lia.
-From NV Require Import Syntax.Token Syntax.Ast Syntax.StrEsc Syntax.Parser Syntax.Grammar
+From NV Require Import Syntax.Token Syntax.Ast Syntax.StmtAst Syntax.StrEsc Syntax.Parser Syntax.Grammar
      Syntax.ParserProofs Syntax.TypedPrinter Syntax.TypedPrinterProofs.
 Import ListNotations.
 Local Open Scope nat_scope.
